@@ -1,5 +1,6 @@
 import Got.Drv.Common
 import Got.Model.Sample
+import Got.Model.SampleAst
 /-
 drv_sample: script lines
   ws <seed> <m> w=<..> u=<..> r=<r0,r1,...> [more fields]
@@ -12,6 +13,13 @@ drv_sample: script lines
       pa <m> <n>                    invalid arguments: `panic invalid` / `panic makecap` / `panic index`
       output: the answers joined by " ; ".  The model is stateless: an earlier panic cannot influence a later call.
   stat ...      statistical phase of the harness: the model has nothing to say; output `freq ok`
+
+With the argument `ast` every valid call (`ws`, `v`) is answered by `Got.Model.SampleAst.weightedSamplingFullA` (= `weightedSamplingFull`, keys in an array): the body of
+WeightedSampling as re-described from /repo/randx/sample.go for this run (Got/Generated/AstRandxSampling.lean; the float keys
+are inputs), where
+heap.Push / heap.Pop are the terms regenerated from $GOROOT/src/container/heap/heap.go for this run
+(Got/Generated/AstContainerHeap.lean) run by the MiniGoHeap interpreter (`diverge` = out of fuel) over the heap.Interface world
+built from the methods of randx.sampleHeap as regenerated from /repo/randx/sample.go (Got/Generated/AstRandxSampleHeap.lean).
 -/
 namespace Got.Drv.Sample
 open Got.Drv Got.Model.Sample
@@ -39,11 +47,19 @@ def panicCall (m n : Int) (k : Nat) (what : String) : String :=
   else if (k : Int) < n then what
   else "bad-op"
 
-def call (ws : List String) : String :=
+/-- a valid call: model, or (ast) the loop over the interpreted container/heap terms -/
+def runWs (ast : Bool) (m : Int) (ranks : List RankKey) : String :=
+  if ast then
+    match Got.Model.SampleAst.weightedSamplingFullA (Got.Model.SampleAst.driverFuel ranks.length) rankLess rankGt m ranks.toArray with
+    | some r => render r
+    | none => "diverge"
+  else render (weightedSampling rankLess rankGt m ranks)
+
+def call (ast : Bool) (ws : List String) : String :=
   match ws with
   | "v" :: _seed :: m :: rest =>
     match parseInt? m, (findField "r=" rest).bind parseRanks with
-    | some m, some ranks => render (weightedSampling rankLess rankGt m ranks)
+    | some m, some ranks => runWs ast m ranks
     | _, _ => "bad-op"
   | ["pw", _seed, m, n, k] =>
     match parseInt? m, parseInt? n, parseNat? k with
@@ -61,19 +77,19 @@ def call (ws : List String) : String :=
     | _, _ => "bad-op"
   | _ => "bad-op"
 
-def step (_ : Unit) (line : String) : Unit × String :=
+def step (ast : Bool) (_ : Unit) (line : String) : Unit × String :=
   if line.startsWith "wseq | " then
-    ((), " ; ".intercalate (((line.drop 7).toString.splitOn " ; ").map (fun c => call (words c)))) else
+    ((), " ; ".intercalate (((line.drop 7).toString.splitOn " ; ").map (fun c => call ast (words c)))) else
   match words line with
   | "ws" :: _seed :: m :: rest =>
     match parseInt? m, (findField "r=" rest).bind parseRanks with
-    | some m, some ranks => ((), render (weightedSampling rankLess rankGt m ranks))
+    | some m, some ranks => ((), runWs ast m ranks)
     | _, _ => ((), "bad-op")
   | "stat" :: _ => ((), "freq ok")
   | [] => ((), "")
   | _ => ((), "bad-op")
 
-def main (_args : List String) : IO Unit := do
-  lineLoop (← IO.getStdin) (← IO.getStdout) step ()
+def main (args : List String) : IO Unit := do
+  lineLoop (← IO.getStdin) (← IO.getStdout) (step (args = ["ast"])) ()
 
 end Got.Drv.Sample
